@@ -79,9 +79,48 @@ fn expression() -> BoxedStrategy<String> {
         // a number split over several tokens: whether it is folded depends on the separator preferences
         1 => ("[0-9]{1,3}", sel(&[",", "."]), "[0-9]{2,3}").prop_map(|(a, sep, b)| MNode::row(vec![MNode::mn(&a), MNode::mo(sep), MNode::mn(&b)])),
         1 => one_char_of("ϕϑϵ∞ℝ").prop_map(|s| MNode::mi(&s)),
+        // words of the definition files (function names, units, known words, ... of any language or braille code), whole
+        // or spelled letter by letter: how they are read depends on which definitions are loaded
+        2 => definition_operand(),
     ]
     .boxed();
     textbook(operand, TexCfg { depth: 3, size: 14, tables: true, text: true }).prop_map(|n| MNode::math(vec![n]).to_xml()).boxed()
+}
+
+/// the configurations (Language=.. / BrailleCode=..) whose definition files list a word (two or more characters) that
+/// occurs in the token text of the expression
+fn word_origins(expr: &str) -> Vec<(String, String)> {
+    let mut text = String::new();
+    let mut in_tag = false;
+    for c in expr.chars() {
+        match c {
+            '<' => in_tag = true,
+            '>' => in_tag = false,
+            _ if !in_tag => text.push(c),
+            _ => {}
+        }
+    }
+    let mut out: Vec<(String, String)> = vec![];
+    for w in definition_words() {
+        if w.word.chars().count() < 2 || !text.contains(&w.word) {
+            continue;
+        }
+        let o = if let Some(rest) = w.file.strip_prefix("/repo/Rules/Languages/") {
+            ("Language".to_string(), rest.split('/').next().unwrap_or("en").to_string())
+        } else if let Some(rest) = w.file.strip_prefix("/repo/Rules/Braille/") {
+            ("BrailleCode".to_string(), rest.split('/').next().unwrap_or("Nemeth").to_string())
+        } else {
+            continue;
+        };
+        // the rarer the set, the more telling the visit: such origins are listed twice
+        if w.rare && !out.contains(&o) {
+            out.push(o.clone());
+        }
+        if !out.contains(&o) || w.rare {
+            out.push(o);
+        }
+    }
+    out
 }
 
 #[derive(Debug, Clone, PartialEq, Eq)]
@@ -326,7 +365,24 @@ impl Property for C10 {
         let target = (proptest::collection::vec(any::<u16>(), n), Just(space).prop_shuffle()).prop_map(|(picks, space)| space.into_iter().zip(picks).map(|((name, vals), p)| (name.to_string(), vals[(p as usize * vals.len()) >> 16].clone())).collect::<Vec<_>>());
         let toggles = proptest::collection::vec((pref_choice(), 0..3u8).prop_map(|((k, v), g)| (k, v, g)), 0..3);
         let noise = if tier == Tier::Thorough { prop_oneof![2 => Just(0u8), 1 => 1..4u8].boxed() } else { prop_oneof![5 => Just(0u8), 1 => Just(2u8)].boxed() };
-        (proptest::collection::vec(h, 0..=max), target, expression(), proptest::collection::vec(0..3u8, 1..5), toggles, noise).prop_map(|(history, target, expr, getters, toggles, noise_threads)| Case { history, target, expr, getters, toggles, noise_threads }).boxed()
+        // "visit": with the configuration a word of the expression comes from (the language or braille code whose
+        // definition file lists it) in force, the same expression is loaded and read earlier in the history -- what that
+        // configuration leaves behind is then exactly what the target expression could pick up
+        let visit = (0..3u8, any::<u16>(), any::<u16>(), 0..2u8);
+        (proptest::collection::vec(h, 0..=max), target, expression(), proptest::collection::vec(0..3u8, 1..5), toggles, noise, visit)
+            .prop_map(|(mut history, target, expr, getters, toggles, noise_threads, (on, which, at, read))| {
+                if on > 0 {
+                    let origins = word_origins(&expr);
+                    if !origins.is_empty() {
+                        let (k, v) = origins[(which as usize * origins.len()) >> 16].clone();
+                        let at = (at as usize * (history.len() + 1)) >> 16;
+                        let steps = [H::Pref(k, v), H::Expr(expr.clone()), if read == 0 { H::Speech } else { H::Braille }];
+                        history.splice(at..at, steps);
+                    }
+                }
+                Case { history, target, expr, getters, toggles, noise_threads }
+            })
+            .boxed()
     }
     fn eval(&self, case: &Case) -> Outcome {
         if case.noise_threads == 0 {
